@@ -62,6 +62,48 @@ func (c *Ctx) note(format string, a ...interface{}) {
 	c.Notes = append(c.Notes, fmt.Sprintf(format, a...))
 }
 
+// shared runs a rule set that is registered under another property as a rule of this one: the
+// structural condition it decides is a necessary condition of both. The obligations are relabelled
+// to this property's rule; keep selects the obligations that matter here (nil: all).
+func (c *Ctx) shared(rule, from, why string, keep func(o Obligation) bool, f func(sub *Ctx)) {
+	sub := &Ctx{P: c.P, Property: c.Property, Tier: c.Tier, Counts: map[string]int{}, Analysed: map[string]int{}}
+	f(sub)
+	n := 0
+	for _, o := range sub.Obs {
+		if keep != nil && !keep(o) {
+			continue
+		}
+		o.Rule = c.Property + "/" + rule
+		c.Obs = append(c.Obs, o)
+		c.Counts[rule]++
+		n++
+	}
+	for k, v := range sub.Analysed {
+		if c.Analysed[k] < v {
+			c.Analysed[k] = v
+		}
+	}
+	c.note("%s (shared with %s): %s", rule, from, why)
+	if n == 0 {
+		c.undecided(rule, "shared-rule "+from, "", "the shared rule produced no obligation for this property")
+	}
+}
+
+func keyHas(subs ...string) func(Obligation) bool {
+	return func(o Obligation) bool {
+		for _, s := range subs {
+			if strings.Contains(o.Key, s) {
+				return true
+			}
+		}
+		return false
+	}
+}
+
+func ruleIs(r string) func(Obligation) bool {
+	return func(o Obligation) bool { return strings.HasSuffix(o.Rule, "/"+r) }
+}
+
 // floor: a rule that matches fewer instances than were confirmed by hand is UNDECIDED.
 func (c *Ctx) floor(rule string, min int) {
 	if c.Counts[rule] < min {
